@@ -133,7 +133,7 @@ class SubPoly(object):
       return not any(self.ival)
 
   def __neg__(self):
-      return self.__class__([-x for x in self.ival])
+      return self.__class__([-x for x in self.ival],self.size)
 
 
 # getitem operator defines b[i], b[i:j] and b[list] which returns the requested
